@@ -755,6 +755,8 @@ def process(run, cases, label, found, stats, timeout):
                         "routed": [[g.name, list(g.qubits)] for g in info["routed"].queue]})
         for key, what, extra in bad:
             stats["spec_fail:" + key] = stats.get("spec_fail:" + key, 0) + 1
+            if key.startswith("timeout:"):
+                continue     # termination is not part of the property (safety only); counted in stats
             if key not in found:
                 found[key] = (what, {"spec": spec, "graph": nm, **extra})
         terms = None
